@@ -504,12 +504,14 @@ type cst = {
   mutable gets : (int * msg obs) list;
   mutable bk : (string * alog) list;      (* abstract state at the time of each backup *)
   mutable tainted : bool;                 (* a failed mutation or crash op: state unknown *)
+  mutable migrated : string option;
+  mutable files_after_migrate : (string * string list) option;
 }
 
 let cfresh () = { a = empty_log; ckeys_ = false; ctimes_ = false; cro_ = false; copen = false;
                   cnewv = V2; v1ok = false; v2ok = false; mono_hist = true; neg_time = false;
                   last_pub_time = None; last_stat_size = None; size_bound = None;
-                  cons1 = []; gets = []; bk = []; tainted = false }
+                  cons1 = []; gets = []; bk = []; tainted = false; migrated = None; files_after_migrate = None }
 
 let toks (s : string) : string list = List.filter (fun x -> x <> "") (String.split_on_char ' ' s)
 
@@ -705,6 +707,7 @@ let run_check (path : string) =
          c.copen <- true; c.ckeys_ <- cfg.ckeys; c.ctimes_ <- cfg.ctimes; c.cro_ <- cfg.cro;
          c.cnewv <- cfg.cnewver;
          if not cfg.cro then (match cfg.cnewver with V1 -> c.v1ok <- true | V2 -> c.v2ok <- true);
+         c.files_after_migrate <- None; c.migrated <- None;
          mutated c
        | _ -> ())
     | ["close"] -> c.copen <- false; mutated c
@@ -829,8 +832,28 @@ let run_check (path : string) =
     | ["rmindex"; _] | ["gc"] | ["sleepms"; _] | ["bkclean"; _] -> ()
     | ["migrate"; v] ->
       (match r with
-       | "ok" :: _ -> (if v = "1" then (c.v1ok <- true; c.v2ok <- false) else (c.v2ok <- true; c.v1ok <- false))
+       | "ok" :: _ ->
+         (if v = "1" then (c.v1ok <- true; c.v2ok <- false) else (c.v2ok <- true; c.v1ok <- false));
+         c.migrated <- Some v
        | _ -> if not c.tainted then chk "C17" "migrate_ok" false r)
+    | ["files"] ->
+      (* right after Migrate(v): every log file is in version v (an empty V1 file has no header), and a
+         second Migrate(v) leaves the listing unchanged *)
+      (match c.migrated with
+       | Some v ->
+         let logs = List.filter (fun t -> let parts = String.split_on_char ':' t in
+                                  match parts with nm :: _ -> Filename.check_suffix nm ".log" | [] -> false) r in
+         let ok = List.for_all (fun t ->
+             match String.split_on_char ':' t with
+             | _ :: _ :: ver :: _ -> ver = "v" ^ v
+             | _ -> false) logs in
+         chk "C17" "versions_after_migrate" ok r;
+         (match c.files_after_migrate with
+          | Some (v', prev) when v' = v -> chk "C17" "migrate_idempotent" (prev = r) r
+          | _ -> ());
+         c.files_after_migrate <- Some (v, r);
+         c.migrated <- None
+       | None -> c.files_after_migrate <- None)
     | ["checkdir"] | ["checkall"] ->
       (* C11: after a clean close every segment passes Check (only claimed for monotone times with a time index) *)
       if not c.tainted && (c.mono_hist && not c.neg_time || not c.ctimes_) then
